@@ -7,11 +7,12 @@ PART = {
         "runs": [{"name": "daemonnet", "pkg": PKG["core"], "run": "^TestVF_C13$", "timeout": "25m", "timeout_thorough": "90m"}],
         "rule": "one scripted history per case (scheme, n, victim, joiner y/n are functions of the case seed; quick 2 cases, thorough 18 = 5 schemes x 3 on bolt + 3 on memdb) "
                 "on real daemons in a child process: first DKG, 5 rounds, reshare with the victim remaining, transition, 5 rounds, reshare in which the victim leaves, "
-                "plus a forced-leave segment (the leave path is not reachable through the DKG, the harness delivers the SharingOutput the code expects). At every firing of "
+                "plus a forced-leave segment (the leave path is not reachable through the DKG, the harness delivers the SharingOutput the code expects); the k-th Put on the victim's base "
+                "store is made to fail once (the node must get that round again); the folder of the joiner of reshare 1 is imaged while it waits, joined, for the execution. At every firing of "
                 "key.save.before/created/after, key.reset.mid, dkgstore.save*/savefinished* (any node: the hook does not say whose db it is) and before/after every Put on the "
                 "victim's base store, the victim's config folder is copied with the file-system API while no hooked write of the victim is in flight; an evaluation = one image "
                 "whose bytes differ from the previous image (non-trivial by definition), checked offline with fresh objects; torn prefixes (1/2, len-1) are synthesized only for "
-                "files observed to be rewritten in place; distinct = (crash window label derived from what changed on disk, set of changed files). A subset (quick: the last image of every crash-window label, "
+                "files observed to be rewritten in place; distinct = (crash window label derived from what changed on disk — for dkg.db changes incl. first-DKG/reshare and the state of the in-progress record —, set of changed files). A subset (quick: the last image of every crash-window label, "
                 "thorough: all) is restarted in a grand-child process (NewDrandDaemon + LoadBeaconsFromDisk) against the still running network. "
                 "The order of directory-entry events (inotify) of the victim's groups/ folder additionally yields the file sets that existed between un-hooked operations. "
                 "Separately 240 writer runs under strace SIGKILL injection (beacon Put loop / dkg SaveFinished loop x pwrite64|fdatasync x N=1..60); non-trivial = the writer was killed.",
@@ -28,7 +29,9 @@ PART = {
                 "(abort | proposal timeout | execution with all kyber traffic dropped) reshare followed by a successful one, and two reshares that the DKG layer completes but core must refuse "
                 "(refused-period: the leader's dkg.db was edited to another beacon period, every member refuses; refused-late: one member's completion notification is parked at the "
                 "dkgstore.savefinished.after hook until the transition time has passed) after which ChainInfo of the refusing members, their group/share files (hashes) and the ChainInfo of a daemon "
-                "restarted on such a folder must be what they were; quick 5 cases with scheme/variant from the case seed, thorough 5 schemes x (5 x 2 repetitions + 2). An evaluation = one round first stored anywhere (verified under the ORIGINAL public key at every node's base store, cross-node agreement, per-node "
+                "restarted on such a folder must be what they were; plus 'evicted': a same-set reshare in which one member (any but the one with the largest key, by seed) is stopped right after the execute packet and is evicted "
+                "by the DKG, the resulting group (hole in its DKG indices, threshold = its size) must carry the chain on; partials of new-group members refused by new-group members past the transition are "
+                "violations; quick 6 cases with scheme/variant from the case seed, thorough 5 schemes x (6 x 2 repetitions + 2). An evaluation = one round first stored anywhere (verified under the ORIGINAL public key at every node's base store, cross-node agreement, per-node "
                 "gap-freedom), one ChainInfo answer compared field by field with the pre-reshare answer, or one bounded-progress checkpoint; non-trivial = rounds within +-3 of the "
                 "transition round, identity comparisons and progress checkpoints; distinct by (scenario, variant, offset to the transition | checkpoint).",
         "assumptions": [
